@@ -45,6 +45,22 @@ def gen_world(rng, i, tier):
                 if k == "header" and lines[idx].strip(" \t") == "[%s]" % sname:
                     lines[idx] = lines[idx].replace("[%s]" % sname, "[[%s]]" % sname)
             pairs = [["[%s]" % sname if p[0] == sname else p[0], p[1]] for p in pairs]
+        if grammar.dclass(D) != "NONE" and pairs and rng.chance(0.25):
+            # a key defined twice in its section (legal without JOIN_SAME_ENTRIES: every lookup answers with the first)
+            ent = [k for k, kd in enumerate(kinds) if kd in ("entry", "entry_plain")]
+            for _ in range(rng.randint(1, 2)):
+                n_ = rng.randrange(len(ent))
+                at = ent[n_] + 1
+                while at < len(kinds) and kinds[at] in ("cont", "entry", "entry_plain") and rng.chance(0.6):
+                    at += 1
+                while at < len(kinds) and kinds[at] == "cont":
+                    at += 1
+                sep = [c for c in D if c not in " \t"][:1] or [D[0]]
+                lines.insert(at, pairs[n_][1] + sep[0] + "again%d" % rng.randrange(100))
+                kinds.insert(at, "entry")
+                ent = [k for k, kd in enumerate(kinds) if kd in ("entry", "entry_plain")]
+                pairs.insert(ent.index(at), list(pairs[n_]))
+            w["dup_keys"] = True
         w["lines"] = lines
         if src == "merged":
             l2, k2, p2 = grammar.gen_conventional(rng, D, C, rng.randint(1, 12), rich=True)
@@ -258,6 +274,8 @@ def check(world, plans, results):
         v.probe("bool_getter")
     if any(q[0].startswith("merge") for q in world["queries"]):
         v.probe("used_as_merge_input")
+    if world.get("dup_keys"):
+        v.probe("key_defined_twice_in_a_section")
     if any(p[0] and p[0].startswith("[") for p in world["pairs"]):
         v.probe("bracketed_stored_section_name")
     return v
